@@ -14,6 +14,7 @@ CONSTANTS
   BufLens = {0, 1, 2, 4, 9}
   EszVals = {0, 1, 2, 4}
   AtomVals = {1, 2, 4}
+  Scripts <- ScriptsNone
   WrapArm = FALSE
 ACTION_CONSTRAINT Emit
 CONSTRAINT EmitInit
